@@ -14,7 +14,7 @@ RULE = (
     "2, 4, 8 and 16 threads start together on a barrier and each loops over its own seeded Tasklang programs "
     "(harness batch items of 3 kinds, DebugBatchItems, contexts, scoped values, sync re-entry, failures), a "
     "hand-off round in which every thread computes with .value() a task object that the next thread built but did not start "
-    "(alone: built and computed on the same thread), a deduplicate scenario in which every thread calls the same functions (default key and caller-supplied keygetter) with the same arguments, batch-free programs driven "
+    "(alone: built and computed on the same thread), a deduplicate scenario in which every thread calls the same functions (default key and caller-supplied keygetter) with the same arguments, and a deduplicated task built on one thread, computed on another, after which the key must be free again, batch-free programs driven "
     "through asyncio.run(fn.asyncio()) in one thread out of three per round (the others must never see asyncio mode), and - in separate "
     "process-wide configurations - COLLECT_PERF_STATS with profiler.flush() after every round (no reset at thread "
     "start). sys.setswitchinterval(1e-6) plus time.sleep(0) at harness hook points (task steps, flush bodies, context "
@@ -123,6 +123,17 @@ def fns():
         st["ddk_exec"].append(threading.get_ident())
         v = yield harness.HItem(st["rt"], 0, "ddk", ("ddk", x))
         return ("ddk", x, threading.get_ident())
+
+    # a deduplicated task built on one thread and computed on another
+    @deduplicate()
+    @A()
+    def ddh(x):
+        st = _state["tls"].cur
+        st["ddh_exec"].append(x)
+        v = yield harness.HItem(st["rt"], 0, "ddh", ("ddh", x))
+        return ("ddh", x)
+
+    _state["ddh"] = ddh
 
     @A()
     def dd_round(x):
@@ -246,7 +257,7 @@ def loop(tid, nthreads, rounds, seed, perf, out, barrier=None):
                 viol.append(("asyncio-mode-left-on-after-asyncio-run", {"thread": tid}))
             digest.append(("asyncio", repr(ao), tl.digest(rt.log)))
         # deduplicate: same function, same arguments in every thread
-        st = {"dd_exec": [], "ddk_exec": [], "rt": None, "dd_tasks": None}
+        st = {"dd_exec": [], "ddk_exec": [], "ddh_exec": [], "rt": None, "dd_tasks": None}
         F["tls"].cur = st
         rt = harness.HarnessRT({"nodes": [], "kinds": 1}, prio=PRIO)
         rt.label = "T%d" % tid
@@ -272,6 +283,38 @@ def loop(tid, nthreads, rounds, seed, perf, out, barrier=None):
                 if o[0] != tid:
                     viol.append(("deduplicated-task-shared-between-threads", {"thread": tid, "owner": o[0]}))
         digest.append(("dd", repr(v)[:60].replace(str(me), "ME")))
+        # hand-off of a deduplicated task: built here, computed by the previous thread; afterwards the key is free
+        # again on the thread that built it
+        st["ddh_exec"] = []
+        S.reset()
+        rt.attach()
+        try:
+            if barrier is not None:
+                mine = F["ddh"].asynq(("h", tid))
+                EXCHANGE[("ddh", tid)] = mine
+                barrier.wait()
+                other = EXCHANGE[("ddh", src)]
+            else:
+                # alone: the same amount of work on this thread (two bodies), nothing handed over
+                mine = None
+                other = F["ddh"].asynq(("h", src))
+            try:
+                hv = other.value()
+            except BaseException as e:
+                hv = ("exc", exc_desc(e))
+            if barrier is not None:
+                barrier.wait()
+            again = F["ddh"].asynq(("h", tid))
+            fresh = again is not mine and not again.is_computed()
+            if not fresh:
+                viol.append(("finished-deduplicated-task-handed-out-again", {"thread": tid, "same_object": again is mine, "computed": again.is_computed()}))
+            try:
+                av = again.value()
+            except BaseException as e:
+                av = ("exc", exc_desc(e))
+        finally:
+            rt.detach()
+        digest.append(("ddh", repr(hv), repr(av), fresh))
         # profiler buffer
         if perf:
             stats = profiler.flush()
@@ -365,7 +408,7 @@ def run_unit(unit, progress):
             if r < len(solo[tid]) and rec["digest"] != solo[tid][r]["digest"]:
                 a, b = rec["digest"], solo[tid][r]["digest"]
                 k = next((j for j in range(min(len(a), len(b))) if a[j] != b[j]), min(len(a), len(b)))
-                what = a[k][0] if k < len(a) and a[k][0] in ("handoff", "asyncio", "dd", "profiler") else "program %d" % k
+                what = a[k][0] if k < len(a) and a[k][0] in ("handoff", "asyncio", "dd", "ddh", "profiler") else "program %d" % k
                 viol.append(("digest-differs-from-solo-run", {"thread": tid, "round": r, "part": what, "concurrent": repr(a[k] if k < len(a) else None)[:120], "alone": repr(b[k] if k < len(b) else None)[:120]}))
             for v in viol[:2]:
                 if len(res["violations"]) < 8:
